@@ -549,7 +549,7 @@ type histOp struct {
 
 var histOps = []histOp{
 	{"query", `a`}, {"query", `sum by (l) (rate(a[1m]))`}, {"query", `a + on (l) group_left b`}, {"query", `topk(1, a) + scalar(sum(b))`},
-	{"query", `h_bucket`}, {"query", `histogram_quantile(0.5, h_bucket)`},
+	{"query", `h_bucket`}, {"query", `histogram_quantile(0.5, h_bucket)`}, {"query-lookback", `a`},
 	{"failing", `a + on (l) b`}, {"cancelled", `sum by (l) (a)`}, {"fallback", `count_values("v", a)`}, {"append-sample", ""}, {"append-series", ""},
 }
 
@@ -581,8 +581,9 @@ func runHistory(ops []histOp, pool string) (sym, det string, evals int64) {
 	w := core.Range(10000, 30000, 12)
 	var keptRes []kept
 	appended := 0
+	var qopts *promql.QueryOpts
 	exec := func(e rangeEngine, q string, cancelIt bool) (*promql.Result, promql.Query, error) {
-		qq, err := e.NewRangeQuery(st, nil, q, time.UnixMilli(w.Start).UTC(), time.UnixMilli(w.End).UTC(), time.Duration(w.Step)*time.Millisecond)
+		qq, err := e.NewRangeQuery(st, qopts, q, time.UnixMilli(w.Start).UTC(), time.UnixMilli(w.End).UTC(), time.Duration(w.Step)*time.Millisecond)
 		if err != nil {
 			return nil, nil, err
 		}
@@ -608,6 +609,11 @@ func runHistory(ops []histOp, pool string) (sym, det string, evals int64) {
 			st.Series = append(st.Series, mstore.Series{Labels: labels.FromStrings("__name__", "a", "l", "0", "m", fmt.Sprintf("n%d", appended)),
 				Samples: []mstore.Sample{{T: 0, V: 1000 * float64(appended)}, {T: 60000, V: 1000*float64(appended) + 1}, {T: 240000, V: 7}}})
 		default:
+			qopts = nil
+			if op.Kind == "query-lookback" {
+				// a per-query lookback shorter than the gap of the series appended later
+				qopts = &promql.QueryOpts{LookbackDelta: 20 * time.Second}
+			}
 			res, qq, err := exec(long, op.Q, op.Kind == "cancelled")
 			evals++
 			if err != nil {
